@@ -1,5 +1,6 @@
 """C11 — checking is re-armed after every outcome: no sticky suspension, no lost error (fault enumeration)."""
 import asyncio
+import sys
 from typing import Any, Dict, List, Optional, Tuple
 
 from vkit import gen, probe, prog, runner
@@ -557,6 +558,234 @@ def run_faulted_new(w) -> None:
         loaded.unload()
 
 
+LINE_FAULT_SOURCE = '''
+import icontract
+
+
+@icontract.require(lambda x: x > 0)
+@icontract.snapshot(lambda x: x, name="x")
+@icontract.ensure(lambda result, OLD: result == OLD.x)
+def f(x):
+    return abs(x)
+
+
+@icontract.require(lambda x: x > 0)
+@icontract.snapshot(lambda x: x, name="x")
+@icontract.ensure(lambda result, OLD: result == OLD.x)
+async def af(x):
+    return abs(x)
+
+
+@icontract.invariant(lambda self: self.x > 0)
+class A(icontract.DBC):
+    def __init__(self, x=1):
+        self.x = x
+
+    @icontract.require(lambda y: y > 0)
+    @icontract.ensure(lambda result: result > 0)
+    def m(self, y):
+        return self.x + y
+
+    async def am(self, y):
+        return self.x + y
+
+    @property
+    def p(self):
+        return self.x
+
+    @p.setter
+    def p(self, value):
+        self.x = value
+
+    def __len__(self):
+        return self.x
+
+
+@icontract.invariant(lambda self: self.x > 0, check_on=icontract.InvariantCheckEvent.ALL)
+class S:
+    def __init__(self, x=1):
+        self.x = x
+
+
+@icontract.invariant(lambda self: self.x > 0)
+class N(icontract.DBC):
+    def __new__(cls, x=1):
+        self = super().__new__(cls)
+        self.x = x
+        return self
+'''
+
+
+class LineFault(BaseException):
+    """Stands for an asynchronous interrupt (KeyboardInterrupt from a signal handler) delivered between two statements."""
+
+
+def _checker_code_and_cleanup_lines():
+    import ast  # pylint: disable=import-outside-toplevel
+    import types  # pylint: disable=import-outside-toplevel
+
+    import icontract._checkers as chk  # pylint: disable=import-outside-toplevel
+
+    seen = {}  # type: Dict[int, Any]
+
+    def walk(code) -> None:
+        if id(code) in seen:
+            return
+        seen[id(code)] = code
+        for const in code.co_consts:
+            if isinstance(const, types.CodeType):
+                walk(const)
+
+    for val in list(vars(chk).values()):
+        if isinstance(val, types.FunctionType) and val.__code__.co_filename == chk.__file__:
+            walk(val.__code__)
+        elif isinstance(val, type) and val.__module__ == chk.__name__:
+            for member in vars(val).values():
+                if isinstance(member, types.FunctionType):
+                    walk(member.__code__)
+    cleanup = set()
+    with open(chk.__file__) as fid:
+        tree = ast.parse(fid.read())
+    for node in ast.walk(tree):
+        if isinstance(node, ast.Try):
+            stmts = list(node.finalbody)
+            for handler in node.handlers:
+                stmts.extend(handler.body)
+            for stmt in stmts:
+                cleanup.update(range(stmt.lineno, (stmt.end_lineno or stmt.lineno) + 1))
+    return list(seen.values()), cleanup
+
+
+def run_line_faults(w) -> None:
+    """An interrupt between ANY two statements of the library's wrappers (sys.monitoring LINE events in icontract/_checkers.py raise
+    a BaseException before the line runs; lines inside finally/except bodies are left out - no Python code can be protected there):
+    afterwards nothing is left suspended and the follow-up calls are checked as in a fresh process."""
+    import icontract  # pylint: disable=import-outside-toplevel
+
+    mon = getattr(sys, "monitoring", None)
+    if mon is None:
+        return
+    tool = 5
+    try:
+        mon.use_tool_id(tool, "vkit-linefault")
+    except ValueError:
+        w.mark_inconclusive("sys.monitoring tool id {} is taken".format(tool))
+        return
+    codes, cleanup = _checker_code_and_cleanup_lines()
+    state = {"armed": False, "count": 0, "target": None, "at": None, "skipped": False}
+
+    def on_line(code, lineno):
+        if not state["armed"]:
+            return
+        idx = state["count"]
+        state["count"] = idx + 1
+        if state["target"] is not None and idx == state["target"]:
+            if lineno in cleanup:
+                state["skipped"] = True
+                return
+            state["at"] = (code.co_qualname, lineno)
+            state["armed"] = False
+            raise LineFault("{}:{}".format(code.co_qualname, lineno))
+
+    loaded = prog.load_source(LINE_FAULT_SOURCE, w.scratch())
+    mod = loaded.module
+    mon.register_callback(tool, mon.events.LINE, on_line)
+    for code in codes:
+        mon.set_local_events(tool, code, mon.events.LINE)
+    try:
+        def drive(res):
+            return probe.drive(res) if asyncio.iscoroutine(res) else res
+
+        a = mod.A()
+        broken = mod.A()
+        s_obj = mod.S()
+        calls = [
+            ("f(1)", lambda: mod.f(1)), ("f(-1)", lambda: mod.f(-1)), ("af(1)", lambda: mod.af(1)), ("af(-1)", lambda: mod.af(-1)),
+            ("A()", lambda: mod.A()), ("A(-1)", lambda: mod.A(-1)), ("a.m(1)", lambda: a.m(1)), ("a.m(-1)", lambda: a.m(-1)),
+            ("a.am(1)", lambda: a.am(1)), ("a.p", lambda: a.p), ("a.p = 2", lambda: setattr(a, "p", 2)), ("len(a)", lambda: len(a)),
+            ("broken.m(1)", lambda: broken.m(1)), ("s.x = 3", lambda: setattr(s_obj, "x", 3)), ("N(1)", lambda: mod.N(1)), ("N(-1)", lambda: mod.N(-1)),
+        ]
+
+        def followups():
+            """(label, thunk, expected outcome) - each on objects of known state."""
+            a.__dict__["x"] = 1
+            s_obj.__dict__["x"] = 1
+            broken.__dict__["x"] = -1
+            return [("f(1)", lambda: mod.f(1), "returned"), ("f(-1)", lambda: mod.f(-1), "violation"), ("af(-1)", lambda: mod.af(-1), "violation"),
+                    ("a.m(1)", lambda: a.m(1), "returned"), ("broken.m(1)", lambda: broken.m(1), "violation"), ("broken.am(1)", lambda: broken.am(1), "violation"),
+                    ("broken.p", lambda: broken.p, "violation"), ("len(broken)", lambda: len(broken), "violation"), ("A(-1)", lambda: mod.A(-1), "violation"),
+                    ("A()", lambda: mod.A(), "returned"), ("s.x = -1", lambda: setattr(s_obj, "x", -1), "violation"), ("N(-1)", lambda: mod.N(-1), "violation"),
+                    ("N(1)", lambda: mod.N(1), "returned")]
+
+        def outcome_of(thunk):
+            try:
+                drive(thunk())
+                return "returned"
+            except icontract.ViolationError:
+                return "violation"
+            except LineFault:
+                return "line-fault"
+            except BaseException as err:  # pylint: disable=broad-except
+                return "raised {}: {}".format(type(err).__name__, str(err)[:80])
+
+        for label, thunk in calls:
+            a.__dict__["x"] = 1
+            s_obj.__dict__["x"] = 1
+            broken.__dict__["x"] = -1
+            state.update(armed=True, count=0, target=None, at=None, skipped=False)
+            clean = outcome_of(thunk)
+            state["armed"] = False
+            n_lines = state["count"]
+            w.count("line_fault_points_enumerated", n_lines)
+            for k in range(n_lines):
+                a.__dict__["x"] = 1
+                s_obj.__dict__["x"] = 1
+                broken.__dict__["x"] = -1
+                before = in_progress_snapshot()
+                state.update(armed=True, count=0, target=k, at=None, skipped=False)
+                got = outcome_of(thunk)
+                state["armed"] = False
+                if state["skipped"]:
+                    w.count("line_faults_skipped_in_cleanup_code")
+                    continue
+                if state["at"] is None:
+                    w.count("faults_not_reached")
+                    continue
+                w.count("faulted_runs")
+                w.count("line_faults_injected")
+                w.case(("line-fault", label, state["at"]))
+                w.distinct("fault_sites", ("line", state["at"][0]))
+                case = {"line_fault": label, "at": list(state["at"])}
+                if got in ("returned", "violation") and got == clean:
+                    w.violation("C11/injected-exception-silently-dropped", "an interrupt raised at {} during {} vanished: the call {}".format(
+                        state["at"], label, got), case)
+                after = in_progress_snapshot()
+                if before is not None and after is not None:
+                    w.count("state_checks")
+                    if after != before:
+                        w.violation("C11/suspension-state-not-restored", "in-progress marks were {} before and are {} after an interrupt at {} "
+                                    "during {}".format(sorted(before), sorted(after), state["at"], label), case)
+                        # (deactivate the leftovers so that the next injections are judged on their own)
+                        import icontract._checkers as chk  # pylint: disable=import-outside-toplevel
+                        for mark in chk._IN_PROGRESS.get() or ():
+                            if hasattr(mark, "active"):
+                                mark.active = False
+                        continue
+                for flabel, fthunk, want in followups():
+                    fgot = outcome_of(fthunk)
+                    w.count("followup_calls")
+                    if fgot != want:
+                        w.violation("C11/checking-not-rearmed-after-fault", "after an interrupt at {} during {}: follow-up {} {} (expected {})".format(
+                            state["at"], label, flabel, fgot, want), case)
+                        break
+    finally:
+        for code in codes:
+            mon.set_local_events(tool, code, 0)
+        mon.register_callback(tool, mon.events.LINE, None)
+        mon.free_tool_id(tool)
+        loaded.unload()
+
+
 GROWTH_SOURCE = '''
 import icontract
 
@@ -654,6 +883,8 @@ def run(w) -> None:
         run_out_of_order_end(w)
     if w.shard == 2 % w.nshards:
         run_faulted_new(w)
+    if w.shard == 3 % w.nshards:
+        run_line_faults(w)
     # (cheap, and on every shard: an implementation that accumulates leftovers slows every later call down, so that the fault
     # enumeration below would only hit the wall-clock watchdog - inconclusive - instead of reporting what is wrong)
     run_growth(w)
@@ -681,6 +912,9 @@ def replay(case, w) -> None:
         return
     if "faulted_new" in case:
         run_faulted_new(w)
+        return
+    if "line_fault" in case:
+        run_line_faults(w)
         return
     spec = case["prog"]
     model = Model(spec)
